@@ -115,6 +115,7 @@ class Interp:
         self.assumed = set()
         self.trace = []
         self.glob_cache = {}
+        self.quant_collect = None
 
     # -- path control --------------------------------------------------------------------
     @property
@@ -182,6 +183,27 @@ class Interp:
             raise PathEnd()
         self.assume(cond if take else z3.Not(cond))
         return take
+
+    def raise_if(self, cond, typ, node):
+        '''The operation at `node` raises `typ` exactly when `cond` holds.  In code mode the path is
+        split; while evaluating a comprehension element for an arbitrary index (mode 'quant') the
+        condition is recorded and the comprehension as a whole raises or completes.'''
+        if isinstance(cond, bool):
+            if cond:
+                raise PyRaise(VExc(typ), node)
+            return
+        cond = z3.simplify(cond)
+        if z3.is_false(cond):
+            return
+        if self.mode == 'code':
+            if self.branch(cond):
+                raise PyRaise(VExc(typ), node)
+            return
+        if self.mode == 'quant':
+            self.quant_collect.append((typ, cond))
+            self.assume(z3.Not(cond))
+            return
+        # specification mode: total semantics
 
     def end_if_infeasible(self):
         if not self.feasible():
@@ -284,6 +306,8 @@ class Interp:
             c = VSet(v.dom, v.ek)
         elif isinstance(v, VDict):
             c = VDict(v.map, v.dom, v.kk, v.vk, v.default)
+            if v.rec is not None:
+                c.rec = {k: self._clone(x, memo) for k, x in v.rec.items()}
         elif isinstance(v, VObj):
             c = VObj(v.cls, {}, v.ident)
             memo[i] = c
@@ -972,6 +996,15 @@ class Interp:
             if v.ek is None:
                 raise PyRaise(VExc('ValueError'), node)
             return [v.ek.wrap(z3.Select(v.arr, i), self) for i in range(n)]
+        from .builtins import VJList, UF, J_sort
+        if isinstance(v, VJList):
+            ln = UF('jlist_len', z3.IntSort(), z3.IntSort())(v.ident)
+            self.raise_if(ln != n, 'ValueError', node)
+            item = UF('jlist_item', z3.IntSort(), z3.IntSort(), J_sort())
+            return [VJ(item(v.ident, i)) for i in range(n)]
+        if isinstance(v, VConst) and (v.py is None or isinstance(v.py, (int, float))) or \
+                type(v).__name__ in ('VInt', 'VBool', 'VFloat'):
+            raise PyRaise(VExc('TypeError'), node)
         raise EngineError(f'cannot unpack {v!r}')
 
     def get_attr(self, obj, attr, node, fr):
@@ -1052,7 +1085,10 @@ class Interp:
     def ev_Name(self, e, fr):
         name = e.id
         if fr.has(name):
-            return fr.lookup(name)
+            v = fr.lookup(name)
+            if isinstance(v, (VOptTerm, VJ)) and v.res is not None:
+                return v.res      # already resolved on this path
+            return v
         if self.mode == 'spec':
             v = self.spec_name(name, fr)
             if v is not None:
@@ -1178,7 +1214,10 @@ class Interp:
         parts = []
         for v in e.values:
             if isinstance(v, ast.FormattedValue):
-                parts.append(self.eval(v.value, fr))
+                val = self.eval(v.value, fr)
+                parts.append(val)
+                if v.format_spec is not None:
+                    B.check_format_spec(self, val, v.format_spec, v)
         self.assumed.add('T-STR')
         return B.fresh_str(self, 'fstr')
 
@@ -1513,7 +1552,15 @@ class Interp:
             self.assumed.add(c.trusted)
         self.V.used_contracts.add(c.key)
         env = dict(env)
-        # ghost parameters are existential witnesses chosen by the caller's contract context
+        # the arguments must have the Python types the callee's contract is stated for
+        if self.mode == 'code':
+            from . import builtins as B
+            for pname, kind in c.params.items():
+                if pname in env and isinstance(env[pname], Value):
+                    ok, conv = B.conforms(self, env[pname], kind)
+                    if not ok:
+                        self.fail(f'{site}.type.{pname}', f'argument {pname} is not a {kind.name}', where=where)
+                    env[pname] = conv
         for lab, req in c.requires:
             self.prove(f'{site}.{lab}', self.spec_bool(req, env), where=where)
         selfv = env.get('self')
@@ -1563,7 +1610,8 @@ class Interp:
                 for lab, inv in spec.inv:
                     self.assume(self.spec_bool(inv, {'self': selfv}))
         self.end_if_infeasible()
-        raise PyRaise(VExc(typ), node)
+        args = c.raises_args[typ](self) if typ in c.raises_args else ()
+        raise PyRaise(VExc(typ, args), node)
 
     # =====================================================================================
     # helpers
